@@ -215,7 +215,7 @@ def strategy(tier):
             st.lists(S['hashable'], max_size=3).map(lambda xs: ['fset', xs]),
             st.lists(st.tuples(S['hashable'], ch).map(list), max_size=4).map(lambda kv: ['dict', kv]),
             st.tuples(st.sampled_from(['box', 'alt']), st.lists(ch, max_size=3),
-                      st.lists(st.tuples(st.sampled_from(['a', 'b', 'kw']), ch).map(list), max_size=2, unique_by=lambda p: p[0])).map(
+                      gens.named_values(st, ['a', 'b', 'kw'], ch, 2)).map(
                 lambda p: ['call', p[0], p[1], p[2]]),
             # standard-library containers and call-like values holding (possibly commented) values
             st.lists(ch, max_size=3).map(lambda xs: ['call', 'deque', xs, []]),
